@@ -194,14 +194,23 @@ Proof.
   rewrite (sent_duration_agree a b H), (power_sent_agree a b H). destruct (sent_duration b); reflexivity.
 Qed.
 
-(* ---------- the correspondence of states (top level, outside matrix blocks) ---------- *)
+(* ---------- the correspondence of states (outside routines and matrix blocks) ---------- *)
 Definition regs_full (rf : regfile) : Prop := forall r, visible r = true -> rf_get rf r <> None.
+
+(* the machine may be inside loops: loop frames hold the loop's own variables only *)
+Definition loops_only (fs : frames) : bool := forallb (fun f => match f with FLoop _ _ => true | _ => false end) fs.
+Lemma vars_of_loops fs : loops_only fs = true -> vars_of fs = None.
+Proof. induction fs as [|[p b r|lv d] t IH]; cbn; intros H; try reflexivity; try discriminate. apply IH. exact H. Qed.
+Lemma params_of_loops fs : loops_only fs = true -> params_of fs = [].
+Proof. induction fs as [|[p b r|lv d] t IH]; cbn; intros H; try reflexivity; try discriminate. apply IH. exact H. Qed.
+Lemma upd_vars_loops fs f : loops_only fs = true -> upd_vars fs f = None.
+Proof. induction fs as [|[p b r|lv d] t IH]; cbn; intros H; try reflexivity; try discriminate. rewrite (IH H). reflexivity. Qed.
 
 Record sim (ss : sstate) (s : mstate) : Prop := mkSim {
   sim_regs : agree (m_regs s) (s_regs ss);
   sim_full : regs_full (s_regs ss);
   sim_globals : m_globals s = s_globals ss;
-  sim_frames : m_frames s = [];
+  sim_frames : loops_only (m_frames s) = true;
   sim_locals : s_locals ss = None;
   sim_world : m_world s = s_world ss;
   sim_unnamed : m_unnamed s = []
@@ -215,7 +224,7 @@ Proof.
 Qed.
 
 Lemma sim_lookup ss s x : sim ss s -> get_var (m_globals s) (m_frames s) x = lookup ss x.
-Proof. intros H. unfold get_var, lookup. rewrite (sim_frames _ _ H), (sim_locals _ _ H), (sim_globals _ _ H). reflexivity. Qed.
+Proof. intros H. unfold get_var, lookup. rewrite (vars_of_loops _ (sim_frames _ _ H)), (sim_locals _ _ H), (sim_globals _ _ H). reflexivity. Qed.
 
 Lemma sim_get_reg ss s r : sim ss s -> visible r = true -> get_reg s r = Ok (rreg (s_regs ss) r).
 Proof.
@@ -282,21 +291,21 @@ Definition ok_dest (d : dest) (v : rval) : bool :=
 Definition put_vm (s : mstate) (d : dest) (x : value) (k : Z) : mstate :=
   match d with
   | DReg r => mkM (m_pc s + k) (rf_set (m_regs s) r x) (m_globals s) (m_frames s) (m_stack s) (m_unnamed s) (m_world s)
-  | DVar y => mkM (m_pc s + k) (m_regs s) (env_set (m_globals s) y x) [] (m_stack s) (m_unnamed s) (m_world s)
+  | DVar y => mkM (m_pc s + k) (m_regs s) (env_set (m_globals s) y x) (m_frames s) (m_stack s) (m_unnamed s) (m_world s)
   | _ => s
   end.
 
 Lemma put_dest_reg s r x : writable r = true -> put_dest s (PReg r) x = Ok (with_regs s (rf_set (m_regs s) r x)).
 Proof. destruct r; cbn; intros H; try reflexivity; discriminate. Qed.
 
-Lemma put_dest_var s y x : m_frames s = [] -> put_dest s (PStr y) x = Ok (with_vars s (env_set (m_globals s) y x) []).
+Lemma put_dest_var s y x : loops_only (m_frames s) = true -> put_dest s (PStr y) x = Ok (with_vars s (env_set (m_globals s) y x) (m_frames s)).
 Proof.
-  intros Hf. cbn [put_dest]. rewrite Hf. unfold put_var. cbn [params_of env_has env_get upd_vars].
+  intros Hf. cbn [put_dest]. unfold put_var. rewrite (params_of_loops _ Hf), (upd_vars_loops _ _ Hf). cbn [env_has env_get].
   destruct (env_has (m_globals s) y); reflexivity.
 Qed.
 
 (* the effect of a store into an allowed destination *)
-Lemma put_dest_ok s d x k : m_frames s = [] -> ok_dest d (RLit (LInt 0)) = true ->
+Lemma put_dest_ok s d x k : loops_only (m_frames s) = true -> ok_dest d (RLit (LInt 0)) = true ->
   (do s' <- put_dest s (dest_param d) x; Ok (with_pc s' (m_pc s' + k))) = Ok (put_vm s d x k).
 Proof.
   intros Hf Hd. destruct d as [r|y|lv|]; cbn [ok_dest] in Hd; try discriminate.
@@ -323,7 +332,7 @@ Proof.
   - cbn [Machine.exec i_op i_p0 i_p1 I2 dest_param]. rewrite Hp. reflexivity.
 Qed.
 
-Lemma lift_put s d x : m_frames s = [] -> ok_dest d (RLit (LInt 0)) = true ->
+Lemma lift_put s d x : loops_only (m_frames s) = true -> ok_dest d (RLit (LInt 0)) = true ->
   lift (do s' <- put_dest s (dest_param d) x; Ok (advance s')) [] = Next (put_vm s d x 1) [].
 Proof.
   intros Hf Hd. unfold advance. rewrite (put_dest_ok s d x 1 Hf Hd). reflexivity.
@@ -353,13 +362,13 @@ Lemma c_rval_reg r d : c_rval rt mt (RReg r) d = move_ref (PReg r) d. Proof. ref
 Lemma c_rval_expr e d : c_rval rt mt (RExpr e) d = c_expr rt mt e ++ [I1 OC_POP (dest_param d)]. Proof. reflexivity. Qed.
 
 Lemma c_rval_runs v d : plain_rval mt v = true -> ok_dest d v = true ->
-  forall im ss s x ss1 fuel, sim ss s -> code_at im (m_pc s) (c_rval rt mt v d) -> (rheight v <= fuel)%nat ->
+  forall im ss s x ss1 fuel, sim ss s -> code_at im (m_pc s) (c_rval rt mt v d) ->
   eval_rval rt mt fuel false ss v = ROk x ss1 ->
   ss1 = ss /\ exists n, esteps n im s = Some (put_vm s d x (zlength (c_rval rt mt v d)), []).
 Proof.
-  intros Hp Hd im ss s x ss1 fuel Hsim Hc Hfuel He.
+  intros Hp Hd im ss s x ss1 fuel Hsim Hc He.
   pose proof (ok_dest_weaken d v Hd) as Hd0. pose proof (sim_frames _ _ Hsim) as Hfr.
-  destruct fuel as [|fuel]; [destruct v; cbn in Hfuel; lia|].
+  destruct fuel as [|fuel]; [destruct v; discriminate|].
   assert (Hnp : forall p, move_const p d = [I2 OC_MOVEQ p (dest_param d)]).
   { intros p. destruct d; cbn [ok_dest] in Hd0; try discriminate; reflexivity. }
   rewrite eval_rval_S in He.
@@ -389,10 +398,8 @@ Proof.
     exists 1%nat. apply (estep1 im s _ _ _ Hf). cbn [Machine.exec i_op i_p0 i_p1 I2].
     rewrite (sim_get_reg ss s r Hsim Hp). cbn [bind]. rewrite zlength1. apply lift_put; assumption.
   - (* expression *)
-    apply andb_true_iff in Hp. destruct Hp as [Hsup Hvis]. cbn [rheight] in Hfuel.
-    rewrite (eval_expr_is_peval rt mt e Hsup fuel false ss) in He by lia.
-    destruct (peval mt (rd_sem ss) (rg_sem ss) e) as [w|er] eqn:Ep; cbn [lift_res] in He; [|discriminate].
-    injection He as Hx Hs; subst w ss1. split; [reflexivity|].
+    apply andb_true_iff in Hp. destruct Hp as [Hsup Hvis].
+    destruct (eval_expr_ok rt mt e Hsup fuel false ss x ss1 He) as [Hs1 Ep]. subst ss1. split; [reflexivity|].
     rewrite c_rval_expr in *. apply code_at_app in Hc. destruct Hc as [Hce Hpop]. cbn [code_at] in Hpop. destruct Hpop as [Hfp _].
     rewrite <- (peval_sim mt e ss s Hsim Hsup Hvis) in Ep.
     destruct (c_expr_pushes_value rt mt e Hsup im s x Hce Ep) as [n Hn].
@@ -403,7 +410,7 @@ Proof.
     assert (Hdp : match dest_param d with PReg _ | PStr _ | PLoopVar _ => true | _ => false end = true)
       by (destruct d; cbn [ok_dest] in Hd0; try discriminate; reflexivity).
     set (s1 := with_stack (pushed s x (zlength (c_expr rt mt e))) (m_stack s)).
-    assert (Hf1 : m_frames s1 = []) by exact Hfr.
+    assert (Hf1 : loops_only (m_frames s1) = true) by exact Hfr.
     pose proof (put_dest_ok s1 d x 1 Hf1 Hd0) as Hput. unfold advance.
     destruct (dest_param d) eqn:Edp; try discriminate;
       (destruct (put_dest s1 _ x) as [s2|er2] eqn:E2; cbn [bind] in Hput |- *; [|discriminate];
@@ -478,7 +485,7 @@ Variable mt : mtable.
 
 Definition simulates (im : image) (ss : sstate) (s : mstate) (ss' : sstate) (code : program) : Prop :=
   exists n s' evs, esteps n im s = Some (s', evs) /\ sim ss' s' /\ m_pc s' = m_pc s + zlength code /\
-                   m_stack s' = m_stack s /\ rev (s_trace ss') = rev (s_trace ss) ++ evs.
+                   (m_stack s', m_frames s') = (m_stack s, m_frames s) /\ rev (s_trace ss') = rev (s_trace ss) ++ evs.
 
 (* the registers a script sets by name *)
 Definition script_reg (r : register) : bool :=
@@ -522,13 +529,13 @@ Proof. intros H. destruct H. constructor; assumption. Qed.
 
 (* ---- register setting ---- *)
 Lemma sim_SReg r v : script_reg r = true -> plain_rval mt v = true -> ok_dest (DReg r) v = true ->
-  forall im ss s ss' fuel, sim ss s -> code_at im (m_pc s) (c_stmt rt mt false None (SReg r v)) -> (S (rheight v) <= fuel)%nat ->
+  forall im ss s ss' fuel, sim ss s -> code_at im (m_pc s) (c_stmt rt mt false None (SReg r v)) ->
   Sem.exec rt mt fuel false ss (SReg r v) = ROk SigNormal ss' -> simulates im ss s ss' (c_stmt rt mt false None (SReg r v)).
 Proof.
-  intros Hr Hp Hd im ss s ss' fuel Hsim Hc Hfuel He. destruct fuel as [|fuel]; [lia|]. rewrite exec_reg in He.
+  intros Hr Hp Hd im ss s ss' fuel Hsim Hc He. destruct fuel as [|fuel]; [discriminate|]. rewrite exec_reg in He.
   change (c_stmt rt mt false None (SReg r v)) with (c_rval rt mt v (DReg r)) in *.
   destruct (eval_rval rt mt fuel false ss v) as [x s1|e s1|s1] eqn:Ev; cbn [sbind] in He; try discriminate.
-  destruct (c_rval_runs rt mt v (DReg r) Hp Hd im ss s x s1 fuel Hsim Hc ltac:(lia) Ev) as [Hs1 [n Hn]]. subst s1.
+  destruct (c_rval_runs rt mt v (DReg r) Hp Hd im ss s x s1 fuel Hsim Hc Ev) as [Hs1 [n Hn]]. subst s1.
   injection He as He. subst ss'. exists n, (put_vm s (DReg r) x (zlength (c_rval rt mt v (DReg r)))), [].
   split; [exact Hn|]. split; [apply sim_put_reg_visible; [exact Hsim|apply script_reg_visible; exact Hr]|].
   split; [reflexivity|]. split; [reflexivity|]. rewrite app_nil_r. reflexivity.
@@ -536,13 +543,13 @@ Qed.
 
 (* ---- assignment ---- *)
 Lemma sim_SAssign y v : plain_rval mt v = true -> ok_dest (DVar y) v = true ->
-  forall im ss s ss' fuel, sim ss s -> code_at im (m_pc s) (c_stmt rt mt false None (SAssign y v)) -> (S (rheight v) <= fuel)%nat ->
+  forall im ss s ss' fuel, sim ss s -> code_at im (m_pc s) (c_stmt rt mt false None (SAssign y v)) ->
   Sem.exec rt mt fuel false ss (SAssign y v) = ROk SigNormal ss' -> simulates im ss s ss' (c_stmt rt mt false None (SAssign y v)).
 Proof.
-  intros Hp Hd im ss s ss' fuel Hsim Hc Hfuel He. destruct fuel as [|fuel]; [lia|]. rewrite exec_assign in He.
+  intros Hp Hd im ss s ss' fuel Hsim Hc He. destruct fuel as [|fuel]; [discriminate|]. rewrite exec_assign in He.
   change (c_stmt rt mt false None (SAssign y v)) with (c_rval rt mt v (DVar y)) in *.
   destruct (eval_rval rt mt fuel false ss v) as [x s1|e s1|s1] eqn:Ev; cbn [sbind] in He; try discriminate.
-  destruct (c_rval_runs rt mt v (DVar y) Hp Hd im ss s x s1 fuel Hsim Hc ltac:(lia) Ev) as [Hs1 [n Hn]]. subst s1.
+  destruct (c_rval_runs rt mt v (DVar y) Hp Hd im ss s x s1 fuel Hsim Hc Ev) as [Hs1 [n Hn]]. subst s1.
   injection He as He. subst ss'. exists n, (put_vm s (DVar y) x (zlength (c_rval rt mt v (DVar y)))), [].
   split; [exact Hn|]. split; [apply sim_put_var; exact Hsim|].
   split; [reflexivity|]. split; [reflexivity|]. rewrite app_nil_r. unfold assign. rewrite (sim_locals _ _ Hsim). reflexivity.
@@ -557,10 +564,10 @@ Lemma plain_ok_result v : plain_rval mt v = true -> ok_dest (DReg R_RESULT) v = 
 Proof. destruct v; cbn; intros H; try reflexivity; try discriminate. destruct r; try reflexivity; discriminate. Qed.
 
 (* ---- units ---- *)
-Lemma sim_SUnits m im ss s ss' fuel : sim ss s -> code_at im (m_pc s) (c_stmt rt mt false None (SUnits m)) -> (1 <= fuel)%nat ->
+Lemma sim_SUnits m im ss s ss' fuel : sim ss s -> code_at im (m_pc s) (c_stmt rt mt false None (SUnits m)) ->
   Sem.exec rt mt fuel false ss (SUnits m) = ROk SigNormal ss' -> simulates im ss s ss' (c_stmt rt mt false None (SUnits m)).
 Proof.
-  intros Hsim Hc Hfuel He. destruct fuel as [|fuel]; [lia|]. rewrite exec_units in He.
+  intros Hsim Hc He. destruct fuel as [|fuel]; [discriminate|]. rewrite exec_units in He.
   destruct (rf_switch_unit_mode (s_regs ss) (VMode m)) as [rb|e] eqn:Es; [|discriminate]. injection He as He. subst ss'.
   destruct (switch_agree (m_regs s) (s_regs ss) (VMode m) rb (sim_regs _ _ Hsim) (sim_full _ _ Hsim) Es) as (ra & Ha & Hag & Hfull).
   change (c_stmt rt mt false None (SUnits m)) with [I2 OC_MOVEQ (PMode m) (PReg R_UNIT_MODE)] in *.
@@ -586,10 +593,10 @@ Proof.
     split; [apply Hadv; apply sim_emit; exact Hsim|apply trace_emit].
 Qed.
 
-Lemma sim_SWait im ss s ss' fuel : sim ss s -> code_at im (m_pc s) (c_stmt rt mt false None SWait) -> (1 <= fuel)%nat ->
+Lemma sim_SWait im ss s ss' fuel : sim ss s -> code_at im (m_pc s) (c_stmt rt mt false None SWait) ->
   Sem.exec rt mt fuel false ss SWait = ROk SigNormal ss' -> simulates im ss s ss' (c_stmt rt mt false None SWait).
 Proof.
-  intros Hsim Hc Hfuel He. destruct fuel as [|fuel]; [lia|]. rewrite exec_wait in He.
+  intros Hsim Hc He. destruct fuel as [|fuel]; [discriminate|]. rewrite exec_wait in He.
   destruct (do_wait ss) as [[] s1|e s1|s1] eqn:Ew; cbn [sbind] in He; try discriminate. injection He as He. subst ss'.
   change (c_stmt rt mt false None SWait) with [I0 OC_WAIT] in *. cbn [code_at] in Hc. destruct Hc as [Hf _].
   destruct (wait_sim im ss s s1 Hsim Hf Ew) as (evs & Hst & Hs & Ht).
@@ -628,11 +635,11 @@ Proof.
 Qed.
 
 Lemma sim_print_gen (nl : bool) v im ss s ss' fuel : plain_rval mt v = true -> sim ss s ->
-  code_at im (m_pc s) (c_stmt rt mt false None (if nl then SPrintln (Some v) else SPrint (Some v))) -> (S (rheight v) <= fuel)%nat ->
+  code_at im (m_pc s) (c_stmt rt mt false None (if nl then SPrintln (Some v) else SPrint (Some v))) ->
   Sem.exec rt mt fuel false ss (if nl then SPrintln (Some v) else SPrint (Some v)) = ROk SigNormal ss' ->
   simulates im ss s ss' (c_stmt rt mt false None (if nl then SPrintln (Some v) else SPrint (Some v))).
 Proof.
-  intros Hp Hsim Hc Hfuel He. destruct fuel as [|fuel]; [lia|].
+  intros Hp Hsim Hc He. destruct fuel as [|fuel]; [discriminate|].
   set (tail := [I2 OC_OUT (PIoOp IO_REGISTER) (PReg R_RESULT); I1 OC_OUT (PIoOp IO_PRINT)] ++ (if nl then [I1 OC_OUT (PIoOp IO_PRINT_END)] else [])).
   assert (Hcode : c_stmt rt mt false None (if nl then SPrintln (Some v) else SPrint (Some v)) = c_rval rt mt v (DReg R_RESULT) ++ tail)
     by (destruct nl; reflexivity).
@@ -640,10 +647,10 @@ Proof.
   assert (Hex : exists x, eval_rval rt mt fuel false ss v = ROk x ss /\ ss' = s_emit ss (EvOut x :: (if nl then [EvNewline] else []))).
   { destruct nl; [rewrite exec_println in He|rewrite exec_print in He];
       destruct (eval_rval rt mt fuel false ss v) as [x s1|e s1|s1] eqn:Ev; cbn [sbind] in He; try discriminate;
-      destruct (c_rval_runs rt mt v (DReg R_RESULT) Hp (plain_ok_result mt v Hp) im ss s x s1 fuel Hsim Hcv ltac:(lia) Ev) as [Hs1 _]; subst s1;
+      destruct (c_rval_runs rt mt v (DReg R_RESULT) Hp (plain_ok_result mt v Hp) im ss s x s1 fuel Hsim Hcv Ev) as [Hs1 _]; subst s1;
       injection He as He; exists x; (split; [reflexivity|symmetry; exact He]). }
   destruct Hex as (x & Ev & Hss'). subst ss'.
-  destruct (c_rval_runs rt mt v (DReg R_RESULT) Hp (plain_ok_result mt v Hp) im ss s x ss fuel Hsim Hcv ltac:(lia) Ev) as [_ [n Hn]].
+  destruct (c_rval_runs rt mt v (DReg R_RESULT) Hp (plain_ok_result mt v Hp) im ss s x ss fuel Hsim Hcv Ev) as [_ [n Hn]].
   set (k := zlength (c_rval rt mt v (DReg R_RESULT))) in *.
   set (s1 := put_vm s (DReg R_RESULT) x k) in *.
   assert (Hsim1 : sim ss s1) by (apply sim_put_reg_hidden; [exact Hsim|reflexivity]).
@@ -661,12 +668,12 @@ Proof.
 Qed.
 
 Lemma sim_SPrint v im ss s ss' fuel : plain_rval mt v = true -> sim ss s ->
-  code_at im (m_pc s) (c_stmt rt mt false None (SPrint (Some v))) -> (S (rheight v) <= fuel)%nat ->
+  code_at im (m_pc s) (c_stmt rt mt false None (SPrint (Some v))) ->
   Sem.exec rt mt fuel false ss (SPrint (Some v)) = ROk SigNormal ss' -> simulates im ss s ss' (c_stmt rt mt false None (SPrint (Some v))).
 Proof. exact (sim_print_gen false v im ss s ss' fuel). Qed.
 
 Lemma sim_SPrintln v im ss s ss' fuel : plain_rval mt v = true -> sim ss s ->
-  code_at im (m_pc s) (c_stmt rt mt false None (SPrintln (Some v))) -> (S (rheight v) <= fuel)%nat ->
+  code_at im (m_pc s) (c_stmt rt mt false None (SPrintln (Some v))) ->
   Sem.exec rt mt fuel false ss (SPrintln (Some v)) = ROk SigNormal ss' -> simulates im ss s ss' (c_stmt rt mt false None (SPrintln (Some v))).
 Proof. exact (sim_print_gen true v im ss s ss' fuel). Qed.
 End Sim5.
@@ -676,7 +683,7 @@ Lemma dev_sim (f : regfile -> world -> dres) :
   (forall a b w, agree a b -> f a w = rebase a (f b w)) ->
   forall ss s ss1, sim ss s -> dev_step ss (f (s_regs ss) (s_world ss)) = ROk tt ss1 ->
   exists s1 evs, dev_outcome s (f (m_regs s) (m_world s)) = Next s1 evs /\ sim ss1 s1 /\ m_pc s1 = m_pc s + 1 /\
-                 m_stack s1 = m_stack s /\ rev (s_trace ss1) = rev (s_trace ss) ++ evs.
+                 (m_stack s1, m_frames s1) = (m_stack s, m_frames s) /\ rev (s_trace ss1) = rev (s_trace ss) ++ evs.
 Proof.
   intros Hresp ss s ss1 Hsim Hd.
   pose proof (Hresp (m_regs s) (s_regs ss) (s_world ss) (sim_regs _ _ Hsim)) as Hvm.
@@ -789,7 +796,7 @@ Qed.
 Lemma sim_one_target (c : bool) k n im ss s ss1 : sim ss s ->
   code_at im (m_pc s) [I2 OC_MOVEQ (PStr n) (PReg R_NAME); I2 OC_MOVEQ (POperand (kind_operand k)) (PReg R_OPERAND); I0 (cmd_op c)] ->
   dev_step ss (target_cmd k c n (s_regs ss) (s_world ss)) = ROk tt ss1 ->
-  exists s1 evs, esteps 3 im s = Some (s1, evs) /\ sim ss1 s1 /\ m_pc s1 = m_pc s + 3 /\ m_stack s1 = m_stack s /\
+  exists s1 evs, esteps 3 im s = Some (s1, evs) /\ sim ss1 s1 /\ m_pc s1 = m_pc s + 3 /\ (m_stack s1, m_frames s1) = (m_stack s, m_frames s) /\
                  rev (s_trace ss1) = rev (s_trace ss) ++ evs.
 Proof.
   intros Hsim Hc Hd. cbn [code_at] in Hc. destruct Hc as [Hf1 [Hf2 [Hf3 _]]].
@@ -812,23 +819,23 @@ Qed.
 
 Lemma sim_oplist (c : bool) l : forallb simple_opnd l = true ->
   forall im ss s ss1 fuel, sim ss s -> code_at im (m_pc s) (c_ops rt mt false (cmd_op c) (OpList l)) ->
-  (2 * length l + 2 <= fuel)%nat -> exec_oplist rt mt fuel false ss c l = ROk tt ss1 ->
+  exec_oplist rt mt fuel false ss c l = ROk tt ss1 ->
   exists n s1 evs, esteps n im s = Some (s1, evs) /\ sim ss1 s1 /\ m_pc s1 = m_pc s + zlength (c_ops rt mt false (cmd_op c) (OpList l)) /\
-                   m_stack s1 = m_stack s /\ rev (s_trace ss1) = rev (s_trace ss) ++ evs.
+                   (m_stack s1, m_frames s1) = (m_stack s, m_frames s) /\ rev (s_trace ss1) = rev (s_trace ss) ++ evs.
 Proof.
-  induction l as [|o r IH]; intros Hl im ss s ss1 fuel Hsim Hc Hfuel He.
-  - destruct fuel as [|fuel]; [cbn in Hfuel; lia|]. rewrite exec_oplist_nil in He. injection He as He. subst ss1.
+  induction l as [|o r IH]; intros Hl im ss s ss1 fuel Hsim Hc He.
+  - destruct fuel as [|fuel]; [discriminate|]. rewrite exec_oplist_nil in He. injection He as He. subst ss1.
     exists 0%nat, s, []. rewrite c_ops_nil. split; [reflexivity|]. split; [exact Hsim|]. split; [unfold zlength; cbn; lia|].
     split; [reflexivity|rewrite app_nil_r; reflexivity].
   - cbn [forallb] in Hl. apply andb_true_iff in Hl. destruct Hl as [Ho Hr].
     destruct o as [k [n|m|x]| | |]; cbn [simple_opnd] in Ho; try discriminate.
-    destruct fuel as [|fuel]; [cbn in Hfuel; lia|]. rewrite exec_oplist_cons in He.
-    destruct fuel as [|fuel]; [cbn [length] in Hfuel; lia|]. rewrite exec_operand_target in He.
+    destruct fuel as [|fuel]; [discriminate|]. rewrite exec_oplist_cons in He.
+    destruct fuel as [|fuel]; [discriminate|]. rewrite exec_operand_target in He.
     destruct (dev_step ss (target_cmd k c n (s_regs ss) (s_world ss))) as [[] sa|e sa|sa] eqn:Ed; cbn [sbind] in He; try discriminate.
     rewrite c_ops_cons in Hc |- *. apply code_at_app in Hc. destruct Hc as [Hc1 Hc2].
     destruct (sim_one_target c k n im ss s sa Hsim Hc1 Ed) as (s1 & e1 & E1 & Hs1 & Hpc1 & Hst1 & Htr1).
     assert (Hc2' : code_at im (m_pc s1) (c_ops rt mt false (cmd_op c) (OpList r))) by (rewrite Hpc1; exact Hc2).
-    destruct (IH Hr im sa s1 ss1 (S fuel) Hs1 Hc2' ltac:(cbn [length] in Hfuel; lia) He) as (n2 & s2 & e2 & E2 & Hs2 & Hpc2 & Hst2 & Htr2).
+    destruct (IH Hr im sa s1 ss1 (S fuel) Hs1 Hc2' He) as (n2 & s2 & e2 & E2 & Hs2 & Hpc2 & Hst2 & Htr2).
     exists (3 + n2)%nat, s2, (e1 ++ e2). split; [eapply esteps_app; eassumption|]. split; [exact Hs2|].
     split; [rewrite Hpc2, Hpc1; unfold zlength; rewrite app_length, Nat2Z.inj_add; cbn [length]; lia|].
     split; [rewrite Hst2; exact Hst1|]. rewrite Htr2, Htr1, app_assoc. reflexivity.
@@ -843,13 +850,13 @@ Definition ops_size (ops : operands) : nat := match ops with OpList l => (2 * le
 
 Lemma sim_ops (c : bool) ops : simple_ops ops = true ->
   forall im ss s ss1 fuel, sim ss s -> code_at im (m_pc s) (c_ops rt mt false (cmd_op c) ops) ->
-  (ops_size ops <= fuel)%nat -> exec_ops rt mt fuel false ss c ops = ROk tt ss1 ->
+  exec_ops rt mt fuel false ss c ops = ROk tt ss1 ->
   exists n s1 evs, esteps n im s = Some (s1, evs) /\ sim ss1 s1 /\ m_pc s1 = m_pc s + zlength (c_ops rt mt false (cmd_op c) ops) /\
-                   m_stack s1 = m_stack s /\ rev (s_trace ss1) = rev (s_trace ss) ++ evs.
+                   (m_stack s1, m_frames s1) = (m_stack s, m_frames s) /\ rev (s_trace ss1) = rev (s_trace ss) ++ evs.
 Proof.
-  intros Hs im ss s ss1 fuel Hsim Hc Hfuel He. destruct ops as [| |l]; cbn [simple_ops] in Hs; try discriminate.
+  intros Hs im ss s ss1 fuel Hsim Hc He. destruct ops as [| |l]; cbn [simple_ops] in Hs; try discriminate.
   - (* all *)
-    destruct fuel as [|fuel]; [cbn in Hfuel; lia|]. rewrite exec_ops_all in He.
+    destruct fuel as [|fuel]; [discriminate|]. rewrite exec_ops_all in He.
     rewrite c_ops_all in *. cbn [code_at] in Hc. destruct Hc as [Hf1 [Hf2 _]].
     destruct (load_hidden im ss s (POperand OD_ALL) R_OPERAND (VOperand OD_ALL) Hsim eq_refl eq_refl eq_refl Hf1) as [E1 Hs1].
     set (s1 := put_vm s (DReg R_OPERAND) (VOperand OD_ALL) 1) in *.
@@ -861,8 +868,8 @@ Proof.
       apply (estep1 im s1 _ _ _ Hf2). rewrite (exec_cmd_all im s1 c Ho). exact Ho2.
     + split; [exact Hs2|]. split; [rewrite Hpc; unfold s1; cbn [put_vm m_pc]; unfold zlength; cbn; lia|]. split; [rewrite Hst; reflexivity|exact Htr].
   - (* list *)
-    destruct fuel as [|fuel]; [cbn in Hfuel; lia|]. rewrite exec_ops_list in He.
-    apply (sim_oplist rt mt c l Hs im ss s ss1 fuel Hsim Hc); [cbn [ops_size] in Hfuel; lia|exact He].
+    destruct fuel as [|fuel]; [discriminate|]. rewrite exec_ops_list in He.
+    exact (sim_oplist rt mt c l Hs im ss s ss1 fuel Hsim Hc He).
 Qed.
 
 Lemma c_set ops : c_stmt rt mt false None (SSet ops) = [I0 OC_WAIT] ++ c_ops rt mt false OC_COLOR ops.
@@ -872,27 +879,27 @@ Lemma c_power (on : bool) ops : c_stmt rt mt false None (if on then SOn ops else
 Proof. destruct on; reflexivity. Qed.
 
 Lemma sim_SSet ops im ss s ss' fuel : simple_ops ops = true -> sim ss s ->
-  code_at im (m_pc s) (c_stmt rt mt false None (SSet ops)) -> (S (ops_size ops) <= fuel)%nat ->
+  code_at im (m_pc s) (c_stmt rt mt false None (SSet ops)) ->
   Sem.exec rt mt fuel false ss (SSet ops) = ROk SigNormal ss' -> simulates im ss s ss' (c_stmt rt mt false None (SSet ops)).
 Proof.
-  intros Hs Hsim Hc Hfuel He. destruct fuel as [|fuel]; [lia|]. rewrite exec_set in He. rewrite c_set in *.
+  intros Hs Hsim Hc He. destruct fuel as [|fuel]; [discriminate|]. rewrite exec_set in He. rewrite c_set in *.
   destruct (do_wait ss) as [[] sa|e sa|sa] eqn:Ew; cbn [sbind] in He; try discriminate.
   destruct (exec_ops rt mt fuel false sa true ops) as [[] sb|e sb|sb] eqn:Eo; cbn [sbind] in He; try discriminate. injection He as He. subst ss'.
   apply code_at_app in Hc. destruct Hc as [Hc1 Hc2]. cbn [code_at] in Hc1. destruct Hc1 as [Hf _].
   destruct (wait_sim im ss s sa Hsim Hf Ew) as (e1 & E1 & Hs1 & Ht1).
   assert (Hc2' : code_at im (m_pc (advance s)) (c_ops rt mt false (cmd_op true) ops)) by exact Hc2.
-  destruct (sim_ops true ops Hs im sa (advance s) sb fuel Hs1 Hc2' ltac:(lia) Eo) as (n2 & s2 & e2 & E2 & Hs2 & Hpc2 & Hst2 & Ht2).
+  destruct (sim_ops true ops Hs im sa (advance s) sb fuel Hs1 Hc2' Eo) as (n2 & s2 & e2 & E2 & Hs2 & Hpc2 & Hst2 & Ht2).
   exists (1 + n2)%nat, s2, (e1 ++ e2). split; [eapply esteps_app; eassumption|]. split; [exact Hs2|].
   split; [rewrite Hpc2; cbn [advance with_pc m_pc cmd_op]; unfold zlength; rewrite app_length, Nat2Z.inj_add; cbn [length]; lia|].
   split; [rewrite Hst2; reflexivity|]. rewrite Ht2, Ht1, app_assoc. reflexivity.
 Qed.
 
 Lemma sim_power (on : bool) ops im ss s ss' fuel : simple_ops ops = true -> sim ss s ->
-  code_at im (m_pc s) (c_stmt rt mt false None (if on then SOn ops else SOff ops)) -> (S (ops_size ops) <= fuel)%nat ->
+  code_at im (m_pc s) (c_stmt rt mt false None (if on then SOn ops else SOff ops)) ->
   Sem.exec rt mt fuel false ss (if on then SOn ops else SOff ops) = ROk SigNormal ss' ->
   simulates im ss s ss' (c_stmt rt mt false None (if on then SOn ops else SOff ops)).
 Proof.
-  intros Hs Hsim Hc Hfuel He. destruct fuel as [|fuel]; [lia|]. rewrite exec_power in He. rewrite c_power in *. cbv zeta in He.
+  intros Hs Hsim Hc He. destruct fuel as [|fuel]; [discriminate|]. rewrite exec_power in He. rewrite c_power in *. cbv zeta in He.
   set (ss0 := s_with_regs ss (rf_set (s_regs ss) R_POWER (VBool on))) in *.
   destruct (do_wait ss0) as [[] sa|e sa|sa] eqn:Ew; cbn [sbind] in He; try discriminate.
   destruct (exec_ops rt mt fuel false sa false ops) as [[] sb|e sb|sb] eqn:Eo; cbn [sbind] in He; try discriminate. injection He as He. subst ss'.
@@ -909,7 +916,7 @@ Proof.
   assert (Hc2' : code_at im (m_pc (advance s0)) (c_ops rt mt false (cmd_op false) ops)).
   { cbn [advance with_pc m_pc]. unfold s0. cbn [put_vm m_pc]. unfold zlength in Hc2. cbn [length] in Hc2.
     replace (m_pc s + 1 + 1) with (m_pc s + Z.of_nat 1 + Z.of_nat 1) by lia. exact Hc2. }
-  destruct (sim_ops false ops Hs im sa (advance s0) sb fuel Hs1 Hc2' ltac:(lia) Eo) as (n2 & s2 & e2 & E2 & Hs2 & Hpc2 & Hst2 & Ht2).
+  destruct (sim_ops false ops Hs im sa (advance s0) sb fuel Hs1 Hc2' Eo) as (n2 & s2 & e2 & E2 & Hs2 & Hpc2 & Hst2 & Ht2).
   exists (1 + (1 + n2))%nat, s2, ([] ++ (e1 ++ e2)). split; [eapply esteps_app; [exact E0|eapply esteps_app; eassumption]|]. split; [exact Hs2|].
   split; [rewrite Hpc2; cbn [advance with_pc m_pc cmd_op]; unfold s0; cbn [put_vm m_pc]; unfold zlength; rewrite !app_length, !Nat2Z.inj_add; cbn [length]; lia|].
   split; [rewrite Hst2; reflexivity|]. cbn [app]. rewrite Ht2, Ht1, app_assoc. reflexivity.
@@ -939,22 +946,22 @@ Definition atom_size (st : stmt) : nat :=
   end.
 
 Theorem atom_simulation st : simple_atom st = true ->
-  forall im ss s ss' fuel, sim ss s -> code_at im (m_pc s) (c_stmt rt mt false None st) -> (atom_size st <= fuel)%nat ->
+  forall im ss s ss' fuel, sim ss s -> code_at im (m_pc s) (c_stmt rt mt false None st) ->
   Sem.exec rt mt fuel false ss st = ROk SigNormal ss' -> simulates im ss s ss' (c_stmt rt mt false None st).
 Proof.
-  intros Hs im ss s ss' fuel Hsim Hc Hfuel He.
-  destruct st as [r v|m|ops|ops|ops| | | | |y v| | | | | | | |[v|]|[v|]| |]; cbn [simple_atom] in Hs; try discriminate; cbn [atom_size] in Hfuel.
+  intros Hs im ss s ss' fuel Hsim Hc He.
+  destruct st as [r v|m|ops|ops|ops| | | | |y v| | | | | | | |[v|]|[v|]| |]; cbn [simple_atom] in Hs; try discriminate.
   - apply andb_true_iff in Hs. destruct Hs as [Hs Hd]. apply andb_true_iff in Hs. destruct Hs as [Hr Hp].
-    exact (sim_SReg rt mt r v Hr Hp Hd im ss s ss' fuel Hsim Hc Hfuel He).
-  - exact (sim_SUnits rt mt m im ss s ss' fuel Hsim Hc Hfuel He).
-  - exact (sim_SSet rt mt ops im ss s ss' fuel Hs Hsim Hc Hfuel He).
-  - exact (sim_power rt mt true ops im ss s ss' fuel Hs Hsim Hc Hfuel He).
-  - exact (sim_power rt mt false ops im ss s ss' fuel Hs Hsim Hc Hfuel He).
-  - exact (sim_SWait rt mt im ss s ss' fuel Hsim Hc Hfuel He).
+    exact (sim_SReg rt mt r v Hr Hp Hd im ss s ss' fuel Hsim Hc He).
+  - exact (sim_SUnits rt mt m im ss s ss' fuel Hsim Hc He).
+  - exact (sim_SSet rt mt ops im ss s ss' fuel Hs Hsim Hc He).
+  - exact (sim_power rt mt true ops im ss s ss' fuel Hs Hsim Hc He).
+  - exact (sim_power rt mt false ops im ss s ss' fuel Hs Hsim Hc He).
+  - exact (sim_SWait rt mt im ss s ss' fuel Hsim Hc He).
   - apply andb_true_iff in Hs. destruct Hs as [Hp Hd].
-    exact (sim_SAssign rt mt y v Hp Hd im ss s ss' fuel Hsim Hc Hfuel He).
-  - exact (sim_SPrint rt mt v im ss s ss' fuel Hs Hsim Hc Hfuel He).
-  - exact (sim_SPrintln rt mt v im ss s ss' fuel Hs Hsim Hc Hfuel He).
+    exact (sim_SAssign rt mt y v Hp Hd im ss s ss' fuel Hsim Hc He).
+  - exact (sim_SPrint rt mt v im ss s ss' fuel Hs Hsim Hc He).
+  - exact (sim_SPrintln rt mt v im ss s ss' fuel Hs Hsim Hc He).
 Qed.
 
 (* scripts: sequences of those statements *)
@@ -986,20 +993,20 @@ Proof.
 Qed.
 
 Theorem script_simulation p : forallb simple_atom p = true ->
-  forall im ss s ss' fuel, sim ss s -> code_at im (m_pc s) (flat_map (c_stmt rt mt false None) p) -> (seq_size p <= fuel)%nat ->
+  forall im ss s ss' fuel, sim ss s -> code_at im (m_pc s) (flat_map (c_stmt rt mt false None) p) ->
   exec_seq rt mt fuel false ss p = ROk SigNormal ss' -> simulates im ss s ss' (flat_map (c_stmt rt mt false None) p).
 Proof.
-  induction p as [|st r IH]; intros Hs im ss s ss' fuel Hsim Hc Hfuel He.
-  - destruct fuel as [|fuel]; [cbn in Hfuel; lia|]. rewrite exec_seq_nil in He. injection He as He. subst ss'.
+  induction p as [|st r IH]; intros Hs im ss s ss' fuel Hsim Hc He.
+  - destruct fuel as [|fuel]; [discriminate|]. rewrite exec_seq_nil in He. injection He as He. subst ss'.
     exists 0%nat, s, []. split; [reflexivity|]. split; [exact Hsim|]. split; [unfold zlength; cbn; lia|]. split; [reflexivity|rewrite app_nil_r; reflexivity].
   - cbn [forallb] in Hs. apply andb_true_iff in Hs. destruct Hs as [Hst Hr].
-    destruct fuel as [|fuel]; [cbn in Hfuel; lia|]. rewrite exec_seq_cons in He. cbn [seq_size] in Hfuel.
+    destruct fuel as [|fuel]; [discriminate|]. rewrite exec_seq_cons in He.
     destruct (Sem.exec rt mt fuel false ss st) as [sig sa|e sa|sa] eqn:Est; cbn [sbind] in He; try discriminate.
     pose proof (atom_signal st fuel ss sig sa Hst Est) as Hsig. subst sig.
     cbn [flat_map] in Hc |- *. apply code_at_app in Hc. destruct Hc as [Hc1 Hc2].
-    destruct (atom_simulation st Hst im ss s sa fuel Hsim Hc1 ltac:(lia) Est) as (n1 & s1 & e1 & E1 & Hs1 & Hpc1 & Hst1 & Ht1).
+    destruct (atom_simulation st Hst im ss s sa fuel Hsim Hc1 Est) as (n1 & s1 & e1 & E1 & Hs1 & Hpc1 & Hst1 & Ht1).
     assert (Hc2' : code_at im (m_pc s1) (flat_map (c_stmt rt mt false None) r)) by (rewrite Hpc1; exact Hc2).
-    destruct (IH Hr im sa s1 ss' fuel Hs1 Hc2' ltac:(lia) He) as (n2 & s2 & e2 & E2 & Hs2 & Hpc2 & Hst2 & Ht2).
+    destruct (IH Hr im sa s1 ss' fuel Hs1 Hc2' He) as (n2 & s2 & e2 & E2 & Hs2 & Hpc2 & Hst2 & Ht2).
     exists (n1 + n2)%nat, s2, (e1 ++ e2). split; [eapply esteps_app; eassumption|]. split; [exact Hs2|].
     split; [rewrite Hpc2, Hpc1; unfold zlength; rewrite app_length, Nat2Z.inj_add; lia|].
     split; [rewrite Hst2; exact Hst1|]. rewrite Ht2, Ht1, app_assoc. reflexivity.
@@ -1110,11 +1117,11 @@ Qed.
 (* a straight-line script, compiled, loaded and run on the machine model from the initial state,
    finishes with exactly the events the reference semantics gives for the source *)
 Theorem straightline_program_runs_as_its_source_says (p : script) (w : world) (fuel : nat) (evs : list event) :
-  forallb (simple_atom (snd (collect p [] []))) p = true -> (seq_size p <= fuel)%nat ->
+  forallb (simple_atom (snd (collect p [] []))) p = true ->
   run_src fuel p w = SFinished evs ->
   exists k, run_program k (compile p) w = Finished evs.
 Proof.
-  intros Hs Hfuel Hrun. unfold run_src, compile in *. destruct (collect p [] []) as [rt mt] eqn:Ec. cbn [snd] in Hs.
+  intros Hs Hrun. unfold run_src, compile in *. destruct (collect p [] []) as [rt mt] eqn:Ec. cbn [snd] in Hs.
   destruct (exec_seq rt mt fuel false (init_sstate w) p) as [sig ss'|e ss'|ss'] eqn:Ee; try discriminate.
   assert (Hsig : sig = SigNormal).
   { clear -Hs Ee. revert fuel Ee. generalize (init_sstate w). induction p as [|st r IH]; intros ss0 fuel Ee.
@@ -1127,7 +1134,7 @@ Proof.
   set (im := load code).
   assert (Him : im_code im = code) by (apply load_no_routine; apply script_no_routine; exact Hs).
   assert (Hc : code_at im (m_pc (init_state w)) code) by (apply (code_at_suffix im [] code); exact Him).
-  destruct (script_simulation rt mt p Hs im (init_sstate w) (init_state w) ss' fuel (sim_init w) Hc Hfuel Ee)
+  destruct (script_simulation rt mt p Hs im (init_sstate w) (init_state w) ss' fuel (sim_init w) Hc Ee)
     as (n & s' & es & En & Hsim & Hpc & _ & Htr).
   exists (n + 1)%nat. unfold run_program, run_image. fold code. fold im.
   rewrite (run_from_esteps n im (init_state w) s' es 1 [] En). cbn [run_from].
